@@ -181,9 +181,9 @@ func TestGvcBoundedVerify(t *testing.T) {
 			}
 			return false
 		}
-		h := strings.ToLower(host)
+		h := strings.TrimSuffix(strings.ToLower(host), ".") // a trailing dot only marks the name as absolute
 		match := func(pat string) bool {
-			pat = strings.ToLower(pat)
+			pat = strings.TrimSuffix(strings.ToLower(pat), ".")
 			if pat == h {
 				return true
 			}
@@ -334,12 +334,12 @@ func TestGvcBoundedVerify(t *testing.T) {
 		return false
 	}
 
-	hosts := []string{"", "www.example.com", "foo.example.com", "WWW.EXAMPLE.COM", "a.b.example.com", "example.com", "www.other.org", "10.0.0.1", "10.0.0.2"}
+	hosts := []string{"", "www.example.com", "foo.example.com", "WWW.EXAMPLE.COM", "a.b.example.com", "x.y.z.example.com", "example.com", "wwwexample.com", "www.example.com.", "www.other.org", "10.0.0.1", "10.0.0.2"}
 	ekus := [][]ExtKeyUsage{nil, {ExtKeyUsageServerAuth}, {ExtKeyUsageClientAuth}, {ExtKeyUsageAny}, {ExtKeyUsageClientAuth, ExtKeyUsageServerAuth}}
 	times := []time.Time{t0, t0.AddDate(5, 0, 0), oldFrom.AddDate(0, 6, 0)}
 	if !thorough {
-		hosts = []string{"", "www.example.com", "foo.example.com", "www.other.org", "10.0.0.1"}
 		ekus = [][]ExtKeyUsage{nil, {ExtKeyUsageClientAuth}, {ExtKeyUsageAny}}
+		times = times[:2]
 	}
 	subjects := append([]*vNode{}, leaves...)
 	subjects = append(subjects, r1, i1) // a root and an intermediate as the certificate to verify
